@@ -57,6 +57,9 @@ def checkEvent (frames : Array Frame) (acc : Acc) (i : Nat) (j : Json) : Except 
   let news ← heapOf frames (← getArr natOf? j "news")
   let ret ← getArr natOf? j "ret"
   let mutated ← getBool j "mutated"
+  -- objects the client built since the last event (arguments made for this call): an `alloc` event of the model
+  let preNews ← heapOf frames (← getArr natOf? j "pre_news")
+  let acc := if preNews.isEmpty then acc else stepOr acc i (.alloc preNews) { acc.st with heap := acc.st.heap ++ preNews }
   let continuous := acc.continuous && decide (acc.st.heap = before) && decide (before.length = n)
   let written := (changed before after).filter (· < n)
   let argRefs := reach args
